@@ -80,6 +80,11 @@ pub enum Call {
     Clone,
     /// continue the history on load(save(g))
     SaveLoad,
+    /// keep a copy aside: snapshot = g.clone()
+    Snapshot,
+    /// refresh the copy in place and go on with it: snapshot.clone_from(&g); g = snapshot
+    /// (a plain g = g.clone() when no snapshot was taken)
+    RefreshSnapshot,
     /// slice(v): observed, then discarded
     Slice(usize),
     /// g.merge(&h, left, h.root)
@@ -114,6 +119,8 @@ impl Call {
             Call::Kids(v) => format!("kids({v})"),
             Call::Clone => "g=g.clone()".into(),
             Call::SaveLoad => "g=load(save(g))".into(),
+            Call::Snapshot => "snapshot=g.clone()".into(),
+            Call::RefreshSnapshot => "snapshot.clone_from(&g); g=snapshot".into(),
             Call::Slice(v) => format!("slice({v})"),
             Call::Merge { h, left } => format!(
                 "merge(h[{}],left={left},right={})",
